@@ -247,6 +247,22 @@ theorem fraction_reads_back (f : Nat) (h0 : 0 < f) (h : f < 10 ^ 9) :
 
 example : Json.fracDigits 120000000 = [46, 49, 50] := by decide +kernel
 
+/-- **the timestamp text reads back to the instant written** (`…_partial`: every instant whose year is 0 … 9999, to the
+    nanosecond; not covered: years below 0, which `fmtTs` writes with a sign and six digits — their fields are covered by
+    `timestamp_fields_determine_instant` and `digit_field_reads_back` but not by this fixed-offset reader).  `Json.readTs`
+    slices the text at RFC 3339's fixed offsets, restores the stripped zeros of the fraction and applies Hinnant's
+    `days_from_civil`. -/
+theorem timestamp_text_reads_back_partial (ns : Int)
+    (hy0 : 0 ≤ (Json.civil ((ns.fdiv 1000000000).fdiv 86400)).1)
+    (hy1 : (Json.civil ((ns.fdiv 1000000000).fdiv 86400)).1 < 10000) :
+    Json.readTs (Json.fmtTs ns) = ns :=
+  Json.readTs_fmtTs ns hy0 hy1
+
+/-! non-vacuity: the hypotheses hold for 2001-09-09T01:46:40.123456789Z and the reader returns the instant -/
+example : 0 ≤ (Json.civil (((1000000000123456789 : Int).fdiv 1000000000).fdiv 86400)).1 ∧
+    (Json.civil (((1000000000123456789 : Int).fdiv 1000000000).fdiv 86400)).1 < 10000 ∧
+    Json.readTs (Json.fmtTs 1000000000123456789) = 1000000000123456789 := by decide +kernel
+
 /-! non-vacuity: 2000-02-29 and 1969-12-31 -/
 example : Json.civil 11016 = (2000, 2, 29) ∧ Json.daysFromCivil 2000 2 29 = 11016 ∧ Json.civil (-1) = (1969, 12, 31) := by
   decide +kernel
